@@ -414,6 +414,13 @@ func (p *Page) Rotate() int {
 		return 0 // Default
 	}
 
+	// Like any value, /Rotate may be given by reference
+	if p.resolver != nil {
+		if resolved, err := p.resolver.Resolve(rotateObj); err == nil {
+			rotateObj = resolved
+		}
+	}
+
 	if rotate, ok := rotateObj.(core.Int); ok {
 		return int(rotate)
 	}
